@@ -107,15 +107,11 @@ class C26:
                    "positions in `Failed:` lines are compared only between runs of the same file layout"]
 
     def make_context(self, rank, root=None):
-        if root is None:
-            d = tempfile.mkdtemp(prefix=f"verif-{self.id}-{rank}-")
-        else:
-            d = os.path.join(root, f"w{rank}")
-            os.makedirs(d, exist_ok=True)
-        return {"dir": d, "n": 0}
+        d, own = common.make_work_dir(self.id, rank, root)
+        return {"dir": d, "n": 0, "own_root": own}
 
     def close_context(self, ctx):
-        shutil.rmtree(ctx["dir"], ignore_errors=True)
+        shutil.rmtree(ctx.get("own_root") or ctx["dir"], ignore_errors=True)
 
     def gen_case(self, rng, tier, index):
         r = rng
@@ -152,7 +148,7 @@ class C26:
 
     def run(self, ctx, case, select=None, swap=False, fault=None):
         ctx["n"] += 1
-        root = os.path.join(ctx["dir"], f"run{ctx['n']}")
+        root = os.path.join(ctx["dir"], f"run{ctx['n']:06d}")
         os.makedirs(root)
         w = worldsim.World(root, case["token"])
         try:
